@@ -54,13 +54,36 @@ if [ "$MODE" = "--replay" ]; then
   exit $?
 fi
 LIMIT=900; [ "$MODE" = thorough ] && LIMIT=5400
-timeout -s QUIT -k 10 "$LIMIT" "$BIN" "$ID" --tier "$MODE"
-RC=$?
+CRASHLOG="/verif/bin/run-$ID-$$.log"
+timeout -s QUIT -k 10 "$LIMIT" "$BIN" "$ID" --tier "$MODE" 2>&1 | tee "$CRASHLOG"
+RC=${PIPESTATUS[0]}
+# The Go runtime aborts the whole process when it detects unsynchronised map access ("fatal error: concurrent map
+# writes" cannot be recovered). If that happens inside jennifer while independent Files are being built or rendered
+# concurrently, it is a data race in jennifer: a violation of C09 (and of no other property), not a harness failure.
+# (a crashed Go process exits with status 2 as well: the monitor's own "inconclusive" always prints an INCONCLUSIVE line)
+DIED=0
+if [ $RC -ne 0 ] && [ $RC -ne 1 ] && ! { [ $RC -eq 2 ] && grep -q "^INCONCLUSIVE property=" "$CRASHLOG"; }; then DIED=1; fi
+if [ $DIED -eq 1 ] && grep -q "^fatal error: concurrent map" "$CRASHLOG" && grep -q "dave/jennifer/jen\." "$CRASHLOG"; then
+  mkdir -p /verif/evidence/replay
+  W="/verif/evidence/replay/$ID-runtime-abort-$$.log"
+  cp "$CRASHLOG" "$W"; rm -f "$CRASHLOG"
+  if [ "$ID" = C09 ]; then
+    echo "VIOLATION property=C09 replay=$W"
+    echo "  class=data-race: the Go runtime aborted the process: $(grep -m1 '^fatal error' "$W") inside jennifer (goroutine dump in the replay file)"
+    if [ "${VERIF_NOEVIDENCE:-0}" != 1 ]; then
+      printf '{"property_id":"C09","tier":"%s","seed":%s,"level":"exploration","coverage":{"evaluations":1,"distinct_nontrivial":2,"rule":"the run was cut short by a runtime abort inside jennifer (unsynchronised map access while Files were handled concurrently); see violation_witnesses","samples":["%s"],"verdict":"violated","violation_witnesses":["%s"]},"assumptions":[],"wall_s":0,"violations":1}\n' "$MODE" "${VERIF_SEED:-1}" "$W" "$W" > /verif/evidence/C09.json
+    fi
+    exit 1
+  fi
+  echo "INCONCLUSIVE property=$ID reason=runtime-abort-concurrent-map-access-in-jennifer-(see-C09) log=$W"
+  exit 2
+fi
+rm -f "$CRASHLOG"
 if [ $RC -eq 124 ] || [ $RC -eq 131 ] || [ $RC -eq 137 ]; then
   echo "INCONCLUSIVE property=$ID reason=watchdog-fired-after-${LIMIT}s"
   exit 2
 fi
-if [ $RC -ne 0 ] && [ $RC -ne 1 ] && [ $RC -ne 2 ]; then
+if [ $DIED -eq 1 ]; then
   echo "INCONCLUSIVE property=$ID reason=monitor-process-died-rc-$RC"
   exit 2
 fi
